@@ -152,7 +152,15 @@ func ZZLoadTree(root string) ([]directives.File, error) { return zzLoadTree(root
 // exactly once each, whatever the order in which the loader's tasks complete; a
 // missing or unparseable included file fails the load.
 func VerifIncludeTree() {
-	layout := zzLayouts[v.Param("layout")]
+	var layout []zzTreeFile
+	if li := v.Param("layout"); li < len(zzLayouts) {
+		layout = zzLayouts[li]
+	} else {
+		// layout 6: an included file in a nested directory whose path ends with the
+		// complete path of the file that includes it (a different file, not a cycle)
+		nested := "x" + v.FSPath("root.knut")
+		layout = []zzTreeFile{{"root.knut", []any{0, "include \"" + nested + "\"\n", 3}}, {nested, []any{1, 2}}}
+	}
 	fault := v.Param("fault") // 0 none, 1 the deepest included file is missing, 2 it does not parse
 	ds := []string{
 		"2020-01-01 open Assets:A\n",
